@@ -488,3 +488,21 @@ Proof. vm_compute. reflexivity. Qed.
 Example C11_demo_transparent_only_encode_panics :
   ufvk_encode 0 (mkUfvk (Some (demo_bytes 65 1)) None None []) = Panic.
 Proof. reflexivity. Qed.
+
+(** string level: the encode-did-not-panic hypothesis is satisfiable and the round trip computes *)
+Definition demo_H : N -> nat -> bytes -> bytes := fun i l x => repeat (i + 1) l.
+Definition demo_G : N -> N -> bytes -> bytes := fun i j x => repeat (i + j + 2) 64.
+Example C11_demo_ufvk_string_roundtrip :
+  match ufvk_encode_str demo_H demo_G 1 demo_ufvk with
+  | Ok s => ufvk_decode_str demo_H demo_G demo_oracles 1 s = Ok demo_ufvk
+            /\ ufvk_decode_str demo_H demo_G demo_oracles 0 s = Err ENetwork
+  | _ => False
+  end.
+Proof. vm_compute. split; reflexivity. Qed.
+Example C11_demo_transparent_string_roundtrip :
+  t_decode_str (nc_pubkey 0) (nc_script 0) (t_encode_str (nc_pubkey 0) (nc_script 0) (SH (demo_bytes 20 7)))
+  = Ok (Some (SH (demo_bytes 20 7))).
+Proof. vm_compute. reflexivity. Qed.
+Example C11_demo_find_terminates :
+  uivk_find_address demo_oracles 2 demo_uivk 5 AllAvailableKeys <> Err FindOutOfFuel.
+Proof. vm_compute. discriminate. Qed.
